@@ -111,7 +111,7 @@ func (d *Den) Expr(v sx.Val) *smt.Term {
 				r = smt.Concat(t, r)
 			}
 		}
-		return r
+		return smt.NormLow(r)
 	case types.Identical(e.T, d.T.Binary):
 		w := d.cw(s.F[3])
 		if w == 0 {
